@@ -243,6 +243,80 @@ Qed.
 Lemma cmp_negb (c : cdV) f : WF c -> cmp c (fun x => negb (f x)) = map negb (cmp c f).
 Proof. intros W. rewrite !(cmp_expand dflt) by auto. unfold spec_cmp. rewrite map_map. reflexivity. Qed.
 
+(* ------------------------------------------------------------------ add_unmatched: what it is for *)
+Lemma add_novalue_some (c : cdV) s : WF c -> hd 0 (ev c) <= s -> s < ndumps c ->
+  exists c', add veqb c s None = Some c'.
+Proof.
+  intros W H1 H2. destruct (lookup_value dflt c s W H1 H2) as (i & L & _). unfold add. rewrite L.
+  destruct (WF_inv c W) as (s0 & r & E & _).
+  assert (NE : ev c <> []) by (rewrite E; discriminate).
+  pose proof (count_lt_lt_length (ev c) s (proj1 W) NE H2) as K.
+  destruct (nth_error (ev c) (count_lt (ev c) s)) eqn:Hx; [eexists; reflexivity|].
+  apply nth_error_None in Hx. lia.
+Qed.
+
+Lemma fold_add_grow : forall (l : list nat) (c : cdV), WF c ->
+  let c' := fold_left (fun c s => match add veqb c s None with Some c' => c' | None => c end) l c in
+  (forall y, In y (ev c) -> In y (ev c')) /\
+  (forall s, In s l -> hd 0 (ev c) <= s -> s < ndumps c -> In s (ev c')).
+Proof.
+  induction l as [|s l IH]; intros c W; cbn [fold_left]; [split; [auto|intros ? []]|].
+  destruct (add veqb c s None) as [c1|] eqn:A.
+  - destruct (add_novalue_spec veqb dflt c c1 s W A) as (W1 & N1 & H1 & _ & I1 & _).
+    destruct (IH c1 W1) as [G1 G2]. split.
+    + intros y Hy. apply G1. apply I1. auto.
+    + intros x [->|Hx] Ha Hb.
+      * apply G1. apply I1. auto.
+      * apply G2; auto; lia.
+  - destruct (IH c W) as [G1 G2]. split; [exact G1|].
+    intros x [->|Hx] Ha Hb; [|apply G2; auto].
+    destruct (add_novalue_some c x W Ha Hb) as (c' & E). congruence.
+Qed.
+
+Lemma fold_min_In : forall t h, In (fold_left Nat.min t h) (h :: t).
+Proof.
+  induction t as [|a t IH]; intros h; [left; reflexivity|]. cbn [fold_left].
+  destruct (IH (Nat.min h a)) as [E|E].
+  - rewrite <- E. destruct (Nat.min_spec h a) as [[_ ->]|[_ ->]]; [left|right; left]; reflexivity.
+  - right; right; exact E.
+Qed.
+
+(* after add_unmatched(segments, d) every segment start inside the event range has a sensor event within d dumps
+   (the unmatched ones have an event exactly there); starts outside the range are ignored *)
+Lemma add_unmatched_post (c : cdV) segs d s : WF c -> In s segs -> hd 0 (ev c) <= s -> s < ndumps c ->
+  exists e, In e (ev (add_unmatched veqb c segs d)) /\ absd s e <= d /\
+            (d < list_min (map (absd s) (ev c)) -> e = s).
+Proof.
+  intros W Hs Ha Hb. unfold add_unmatched.
+  set (um := filter (fun s => d <? list_min (map (absd s) (ev c))) segs).
+  destruct (fold_add_grow um c W) as [G1 G2].
+  destruct (d <? list_min (map (absd s) (ev c))) eqn:T.
+  - exists s. split; [|split; [unfold absd; lia|auto]].
+    apply G2; auto. unfold um. apply filter_In. split; auto.
+  - apply Nat.ltb_ge in T. destruct (WF_inv c W) as (s0 & r & E & _).
+    assert (M : In (list_min (map (absd s) (ev c))) (map (absd s) (ev c))).
+    { rewrite E. cbn [map list_min]. apply fold_min_In. }
+    apply in_map_iff in M. destruct M as (e & Ee & He). exists e. split; [apply G1; auto|]. split; [lia|intros; lia].
+Qed.
+
+(* ------------------------------------------------------------------ align: not more events than segments *)
+Lemma chain_lt_NoDup : forall r s, chain lt s r -> NoDup (s :: r).
+Proof.
+  induction r as [|e r IH]; intros s C; [repeat constructor; auto|]. destruct C as [C1 C2]. constructor; [|apply IH; auto].
+  intros [H|H]; [lia|]. pose proof (chain_lt_Forall _ _ C2) as F. rewrite Forall_forall in F. specialize (F s H). lia.
+Qed.
+
+Lemma align_count (c : cdV) segs c' : WF c -> incr segs -> align dflt c segs = Some c' ->
+  length (ev c') <= length segs /\ S (cat_len c') <= length segs.
+Proof.
+  intros W I H. destruct (align_WF dflt c segs c' W I H) as (W1 & F1 & _).
+  destruct (WF_inv c' W1) as (s & r & E & C & L & _).
+  assert (ND : NoDup (ev c')) by (rewrite E; apply chain_lt_NoDup; auto).
+  assert (LE : length (ev c') <= length segs).
+  { apply NoDup_incl_length; auto. intros x Hx. rewrite Forall_forall in F1. auto. }
+  split; [exact LE|]. unfold cat_len. rewrite E in LE. simpl in LE. lia.
+Qed.
+
 (* ------------------------------------------------------------------ the label pipeline *)
 (* label.remove(v); label.align(scan.events); if label.events[0] > 0: label.add(0, v) -- for scan events that
    start at dump 0 and contain N: always defined for N > 0, well-formed, starts at dump 0, still N dumps, and every event is a
@@ -266,3 +340,86 @@ Proof.
 Qed.
 
 End Laws.
+
+(* ------------------------------------------------------------------ unique_in_order, the tokenize fallback *)
+Section TokP.
+Context {V K : Type} (veqb : V -> V -> bool) (keqb : K -> K -> bool) (tok : V -> K) (dflt : V).
+Context (veqb_spec : forall a b, veqb a b = true <-> a = b).
+Context (keqb_spec : forall a b, keqb a b = true <-> a = b).
+Context (tok_inj : forall a b, tok a = tok b -> a = b).
+
+Lemma index_of_app_l (u w : list V) x i : index_of veqb x u = Some i -> index_of veqb x (u ++ w) = Some i.
+Proof.
+  revert i. induction u as [|a u IH]; intros i H; simpl in *; [discriminate|].
+  destruct (veqb a x); [exact H|]. destruct (index_of veqb x u) as [j|]; [|discriminate].
+  rewrite (IH j eq_refl). exact H.
+Qed.
+
+Lemma index_of_app_new (u : list V) x : index_of veqb x u = None -> index_of veqb x (u ++ [x]) = Some (length u).
+Proof.
+  induction u as [|a u IH]; intros H; simpl in *.
+  - assert (E : veqb x x = true) by (apply veqb_spec; reflexivity). rewrite E. reflexivity.
+  - destruct (veqb a x); [discriminate|]. destruct (index_of veqb x u); [discriminate|]. rewrite IH by reflexivity. reflexivity.
+Qed.
+
+Lemma index_of_app_none (u : list V) x y : index_of veqb y u = None -> veqb x y = false ->
+  index_of veqb y (u ++ [x]) = None.
+Proof.
+  intros H NE. induction u as [|a u IH]; simpl in *; [rewrite NE; reflexivity|].
+  destruct (veqb a y); [discriminate|]. destruct (index_of veqb y u); [discriminate|]. rewrite IH by reflexivity. reflexivity.
+Qed.
+
+Lemma memv_index_of (u : list V) x : memv veqb x u = match index_of veqb x u with Some _ => true | None => false end.
+Proof.
+  induction u as [|a u IH]; [reflexivity|]. unfold memv in *. simpl. destruct (veqb a x); [reflexivity|].
+  rewrite IH. destruct (index_of veqb x u); reflexivity.
+Qed.
+
+Lemma uio_from_ext : forall l s1 s2, (forall y, memv veqb y s1 = memv veqb y s2) ->
+  uio_from veqb s1 l = uio_from veqb s2 l.
+Proof.
+  induction l as [|x l IH]; intros s1 s2 H; [reflexivity|]. simpl. rewrite (H x).
+  destruct (memv veqb x s2); [apply IH; auto|]. f_equal. apply IH. intros y. unfold memv. simpl. f_equal. apply H.
+Qed.
+
+Lemma memv_snoc (u : list V) x y : memv veqb y (u ++ [x]) = memv veqb y (x :: u).
+Proof. unfold memv. rewrite existsb_app. simpl. rewrite orb_false_r. apply orb_comm. Qed.
+
+(* invariant of the loop: the dict maps the token of every element seen so far to its position in unique_elements *)
+Definition dict_ok (d : list (K * nat)) (u : list V) : Prop :=
+  forall x, assoc keqb (tok x) d = index_of veqb x u.
+
+Lemma uio_tok_loop_spec : forall l d u, dict_ok d u ->
+  let U := u ++ uio_from veqb u l in
+  uio_tok_loop keqb tok d u l = (U, inverse_of veqb U l).
+Proof.
+  induction l as [|x l IH]; intros d u OK; cbn [uio_tok_loop uio_from].
+  - simpl. rewrite app_nil_r. reflexivity.
+  - rewrite (OK x). rewrite memv_index_of. destruct (index_of veqb x u) as [i|] eqn:EI.
+    + rewrite (IH d u OK). cbv zeta. unfold inverse_of at 2. cbn [map].
+      rewrite (index_of_app_l u (uio_from veqb u l) x i EI). reflexivity.
+    + assert (OK' : dict_ok ((tok x, length u) :: d) (u ++ [x])).
+      { intros y. cbn [assoc]. destruct (keqb (tok x) (tok y)) eqn:EK.
+        - apply keqb_spec in EK. apply tok_inj in EK. subst y. symmetry. apply index_of_app_new; auto.
+        - rewrite (OK y). destruct (index_of veqb y u) as [j|] eqn:EJ.
+          + symmetry. apply index_of_app_l; auto.
+          + assert (NE : veqb x y = false).
+            { destruct (veqb x y) eqn:E; auto. apply veqb_spec in E. subst y.
+              assert (keqb (tok x) (tok x) = true) by (apply keqb_spec; reflexivity). congruence. }
+            symmetry. apply index_of_app_none; auto. }
+      rewrite (IH _ _ OK'). cbv zeta.
+      assert (EU : (u ++ [x]) ++ uio_from veqb (u ++ [x]) l = u ++ x :: uio_from veqb (x :: u) l).
+      { rewrite <- app_assoc. cbn [app]. f_equal. f_equal. apply uio_from_ext. intros y. apply memv_snoc. }
+      rewrite EU. unfold inverse_of at 2. cbn [map].
+      replace (index_of veqb x (u ++ x :: uio_from veqb (x :: u) l)) with (Some (length u)); [reflexivity|].
+      symmetry. change (x :: uio_from veqb (x :: u) l) with ([x] ++ uio_from veqb (x :: u) l). rewrite app_assoc.
+      apply index_of_app_l. apply index_of_app_new; auto.
+Qed.
+
+(* the fallback loop computes exactly unique_in_order (first occurrences, original order) and its inverse,
+   provided equal tokens mean equal values (dask.tokenize is deterministic and collision-free: trusted) *)
+Lemma uio_tok_spec (l : list V) :
+  uio_tok keqb tok l = (unique_in_order veqb l, inverse_of veqb (unique_in_order veqb l) l).
+Proof. unfold uio_tok, unique_in_order. apply (uio_tok_loop_spec l [] []). intros x. reflexivity. Qed.
+
+End TokP.
